@@ -135,6 +135,7 @@ InitSess(role, hs, dtls) ==
      rd |-> "none", wr |-> "none", cfg |-> [NoCfg EXCEPT !.dtls = dtls],
      dead |-> "no", closing |-> FALSE, done |-> FALSE,
      helloDone |-> FALSE, haveCookie |-> FALSE, gotNst |-> FALSE, retried |-> FALSE,
+     desync |-> FALSE,             \* an incomplete record/message is buffered in front of the input
      tampered |-> FALSE,           \* ghost: the handshake byte stream it saw differs from what the peer sent
      recvSeq |-> <<>>,             \* ghost: handshake/CCS messages accepted, in order
      dlvLog |-> <<>>,              \* ghost: context of every delivery to the application
@@ -153,12 +154,21 @@ ReadSecure(s) == s.rd # "none"
 (*   auth   it verifies under the receiver's CURRENT read keys and          *)
 (*          sequence number: produced by a holder of the keys (peer or      *)
 (*          deviant peer), unmodified, not replayed/reordered               *)
-(*   gen    it is byte-for-byte what the honest peer sent at this point of  *)
-(*          its own run (so its content is well formed and its transcript   *)
-(*          agrees)                                                         *)
+(*   gen    its CONTENT is byte-for-byte what the honest peer sent at this  *)
+(*          point of its own run (well formed, transcript agrees)           *)
+(*   free   unprotected and not the honest peer's record as sent (injected, *)
+(*          header or body edited, re-framed): nothing predicts what the    *)
+(*          record layer makes of it, the choice ch below covers all cases  *)
+(*   frag   its bytes were edited so that it may be an incomplete record    *)
 (*   alvl, adesc  alert level / description (it = "alert")                  *)
+(* Choice ch (resolved by the trace, enumerated by the model checker):      *)
+(*   "good"   record layer passes it, content parses                        *)
+(*   "bad"    record layer passes it, content does not parse / verify       *)
+(*   "rlfail" record layer rejects it (bad version/length/type)             *)
+(*   "part"   it is an incomplete record or message: buffered, no progress  *)
 (***************************************************************************)
 RecTypes == {"hs", "ccs", "app", "alert", "junk"}
+Choices == {"good", "bad", "rlfail", "part"}
 
 (* How the record layer classifies the record. *)
 Verdict(s, r) ==
@@ -171,15 +181,18 @@ Verdict(s, r) ==
         ELSE IF s.fam = "T13" /\ ~r.sealed /\ r.it = "alert" THEN "plainalert" \* tls13Decode: short alert read as plaintext
         ELSE "bad"
 
-(* Result of one receive call for one record; all nondeterminism is in c   *)
-(* (the negotiated cfg, consulted only when a hello is processed) and ok    *)
-(* (whether the content of a non-genuine message happened to parse).        *)
 Kill(s, why) == [s EXCEPT !.dead = why]
 
-Result(s2, gate, acc, ndlv, alertOut) ==
-    [next |-> s2, gate |-> gate, acc |-> acc, ndlv |-> ndlv, alertOut |-> alertOut]
+\* rpass: the record passed the record layer (header checks and, if protected, authentication)
+\* loose: the code sees a re-framing of the bytes that the environment cannot describe message by
+\*        message (incomplete or desynchronised records); gate/accept/record events are then not predicted,
+\*        only the outcome (still waiting, or dead) is
+Result(s2, gate, acc, ndlv, alertOut, rpass) ==
+    [next |-> s2, gate |-> gate, acc |-> acc, ndlv |-> ndlv, alertOut |-> alertOut, rpass |-> rpass, loose |-> FALSE]
 
-RecvHs(s, r, c, ok) ==
+Fatal(s, gate) == Result(Kill(s, "fatalsent"), gate, <<>>, 0, TRUE, TRUE)
+
+RecvHs(s, r, c, ch) ==
     LET m == r.msg
         isHello == (m = "SERVER_HELLO" /\ s.role = "C") \/ (m = "CLIENT_HELLO" /\ s.role = "S")
         \* the family can change only when the hello is processed (1.3-capable endpoint negotiating <= 1.2)
@@ -188,28 +201,32 @@ RecvHs(s, r, c, ok) ==
                 ELSE IF s.hs = "T13_START" THEN "CLIENT_HELLO" ELSE s.hs
         cc   == IF isHello /\ ~s.helloDone THEN c ELSE s.cfg
         g    == IF fam2 = "T13" THEN Gate13(s.role, s.hs, m) ELSE GateL(s.role, hsL, m, cc, s)
+        good == r.gen \/ ch = "good"
     IN
-    IF g = "REJECT" \/ (s.hs = "DONE" /\ s.fam = "L") THEN
-        \* out of order / renegotiation attempt: unexpected_message or no_renegotiation, fatal
-        Result(Kill(s, "fatalsent"), <<>>, <<>>, 0, TRUE)
-    ELSE IF ~(r.gen \/ ok) THEN
-        \* passed the gate but the body does not parse / verify
-        Result(Kill(s, "fatalsent"), <<m>>, <<>>, 0, TRUE)
+    IF s.hs = "DONE" /\ s.fam = "L" /\ ((s.role = "S" /\ m = "CLIENT_HELLO") \/ (s.role = "C" /\ m = "HELLO_REQUEST")) THEN
+        \* renegotiation is compiled out: refused with a no_renegotiation WARNING, the session lives on
+        \* (sslDecode.c "If all rehandshaking is disabled, just catch that here and alert")
+        Result(s, <<>>, <<>>, 0, FALSE, TRUE)
+    ELSE IF s.hs = "DONE" /\ s.fam = "L" /\ s.role = "C" /\ m = "CLIENT_HELLO" THEN
+        \* the gate's `hsType == CLIENT_HELLO && hsState == DONE` escape is not restricted to servers: the
+        \* message passes the gate on a client too; it must never be accepted
+        Fatal(s, <<m>>)
+    ELSE IF g = "REJECT" \/ (s.hs = "DONE" /\ s.fam = "L") THEN
+        Fatal(s, <<>>)                   \* out of order: unexpected_message
+    ELSE IF ~good THEN
+        Fatal(s, <<m>>)                  \* passed the gate but the body does not parse / verify
     ELSE IF m = "FINISHED" /\ (s.tampered \/ ~r.gen) THEN
-        \* Finished is checked against the receiver's own transcript
-        Result(Kill(s, "fatalsent"), <<m>>, <<>>, 0, TRUE)
+        Fatal(s, <<m>>)                  \* Finished is checked against the receiver's own transcript
     ELSE IF m = "FINISHED" /\ fam2 = "L" /\ ~ReadSecure(s) THEN
-        \* sslDecode.c/hsDecode.c: Finished requires an activated read cipher
-        Result(Kill(s, "fatalsent"), <<m>>, <<>>, 0, TRUE)
+        Fatal(s, <<m>>)                  \* Finished requires an activated read cipher
     ELSE IF isHello /\ s.retried /\ ~s.cfg.dtls /\ c.fam # "T13" THEN
-        \* RFC 8446 4.1.4: after a HelloRetryRequest the version may not change
-        Result(Kill(s, "fatalsent"), <<m>>, <<>>, 0, TRUE)
+        Fatal(s, <<m>>)                  \* RFC 8446 4.1.4: after a HelloRetryRequest the version may not change
     ELSE IF isHello /\ ~s.helloDone /\ c.retry THEN
         \* HelloRetryRequest (TLS 1.3) / HelloVerifyRequest (DTLS server): the hello is consumed, the
         \* endpoint stays where it was and expects a second hello; allowed once
-        IF s.retried THEN Result(Kill(s, "fatalsent"), <<m>>, <<>>, 0, TRUE)
+        IF s.retried THEN Fatal(s, <<m>>)
         ELSE Result([s EXCEPT !.retried = TRUE, !.recvSeq = Append(s.recvSeq, m),
-                              !.tampered = s.tampered \/ ~r.gen], <<m>>, <<m>>, 0, FALSE)
+                              !.tampered = s.tampered \/ ~r.gen], <<m>>, <<m>>, 0, FALSE, TRUE)
     ELSE
         LET hs2 == IF fam2 = "T13" THEN After13(s.role, s.hs, m, cc) ELSE AfterL(s.role, g, cc)
             rd2 == IF fam2 = "T13" THEN
@@ -226,7 +243,6 @@ RecvHs(s, r, c, ok) ==
                    ELSE IF hs2 = "FINISHED" /\ (s.role = "C" \/ cc.resumed) THEN "sec"   \* own CCS+Finished flight
                    ELSE IF hs2 = "DONE" THEN "sec"
                    ELSE s.wr
-            \* a HelloRetryRequest / cookie-less DTLS hello keeps the endpoint where it was
             cc2 == [cc EXCEPT !.cauth = cc.cauth \/ (s.role = "C" /\ m = "CERTIFICATE_REQUEST"), !.retry = FALSE]
             s2 == [s EXCEPT !.hs = hs2, !.fam = fam2, !.cfg = cc2, !.rd = rd2, !.wr = wr2,
                             !.helloDone = s.helloDone \/ isHello,
@@ -237,14 +253,15 @@ RecvHs(s, r, c, ok) ==
                             \* TLS 1.3 NewSessionTicket is a post-handshake message (any number, not transcript)
                             !.recvSeq = IF s.done \/ (fam2 = "T13" /\ m = "NEW_SESSION_TICKET")
                                         THEN s.recvSeq ELSE Append(s.recvSeq, m)]
-        IN Result(s2, <<m>>, <<m>>, 0, FALSE)
+        IN Result(s2, <<m>>, <<m>>, 0, FALSE, TRUE)
 
-RecvCcs(s, r) ==
-    IF s.fam = "T13" THEN Result(s, <<>>, <<>>, 0, FALSE)       \* ignored
+RecvCcs(s, r, ch) ==
+    IF s.fam = "T13" THEN Result(s, <<>>, <<>>, 0, FALSE, TRUE)       \* ignored
+    ELSE IF ~(r.gen \/ ch = "good") THEN Fatal(s, <<>>)               \* malformed body
     ELSE IF s.hs = "FINISHED" /\ ~ReadSecure(s) THEN
         Result([s EXCEPT !.rd = "sec", !.recvSeq = Append(s.recvSeq, "CCS"),
-                         !.tampered = s.tampered \/ ~r.gen], <<>>, <<>>, 0, FALSE)
-    ELSE Result(Kill(s, "fatalsent"), <<>>, <<>>, 0, TRUE)
+                         !.tampered = s.tampered \/ ~r.gen], <<>>, <<>>, 0, FALSE, TRUE)
+    ELSE Fatal(s, <<>>)
 
 (* sslDecode.c:1648-1664, tls13Decode.c:457-487 *)
 MayDeliver(s) ==
@@ -255,31 +272,62 @@ RecvApp(s, r, v) ==
     IF v = "ok" /\ MayDeliver(s) THEN
         Result([s EXCEPT !.dlvLog = Append(s.dlvLog,
                    [hs |-> s.hs, rd |-> s.rd, done |-> s.done, gen |-> r.gen, auth |-> r.auth])],
-               <<>>, <<>>, 1, FALSE)
-    ELSE Result(Kill(s, "fatalsent"), <<>>, <<>>, 0, TRUE)
+               <<>>, <<>>, 1, FALSE, TRUE)
+    ELSE Fatal(s, <<>>)
 
-RecvAlert(s, r) ==
-    IF r.adesc = 0 THEN Result(Kill(s, "closed"), <<>>, <<>>, 0, FALSE)
-    ELSE IF r.alvl = 2 THEN Result(Kill(s, "fatalrcvd"), <<>>, <<>>, 0, FALSE)
-    ELSE Result(s, <<>>, <<>>, 0, FALSE)                   \* warning: reported, session lives
+RecvAlert(s, r, ch) ==
+    IF ~(r.gen \/ ch = "good") THEN Fatal(s, <<>>)          \* malformed alert
+    ELSE IF r.adesc = 0 THEN Result(Kill(s, "closed"), <<>>, <<>>, 0, FALSE, TRUE)
+    ELSE IF r.alvl = 2 THEN Result(Kill(s, "fatalrcvd"), <<>>, <<>>, 0, FALSE, TRUE)
+    ELSE Result(s, <<>>, <<>>, 0, FALSE, TRUE)               \* warning: reported, session lives
+
+Dispatch(s, r, c, ch, v) ==
+    CASE r.it = "hs" -> RecvHs(s, r, c, ch)
+      [] r.it = "ccs" -> RecvCcs(s, r, ch)
+      [] r.it = "app" -> RecvApp(s, r, v)
+      [] r.it = "alert" -> RecvAlert(s, r, ch)
+      [] OTHER -> Fatal(s, <<>>)
+
+\* the record (or the message in it) is incomplete: it is buffered; from now on the byte stream and the
+\* environment's idea of record boundaries disagree (desync) - nothing may ever be accepted from it
+Pending(s, rpass) ==
+    [Result([s EXCEPT !.desync = TRUE, !.tampered = s.tampered \/ ~s.done], <<>>, <<>>, 0, FALSE, rpass) EXCEPT !.loose = TRUE]
+
+\* which choices make sense for this record in this state
+AllowedChoices(s, r) ==
+    LET v == Verdict(s, r) IN
+    IF s.desync THEN {"rlfail", "part"}
+    ELSE IF v = "bad" THEN (IF r.frag THEN {"good", "part"} ELSE {"good"})
+    ELSE IF v \in {"ok", "ignore", "plainalert"} THEN (IF r.gen THEN {"good"} ELSE {"good", "bad"})
+    ELSE IF v = "garbage" THEN {"rlfail", "part", "bad"}
+    ELSE IF r.free THEN Choices
+    ELSE {"good"}
 
 (* One record handed to a live endpoint. *)
-Recv(s, r, c, ok) ==
+Recv(s, r, c, ch) ==
     LET v == Verdict(s, r) IN
-    CASE v = "ignore" -> Result(s, <<>>, <<>>, 0, FALSE)
-      [] v = "plainalert" -> RecvAlert(s, r)
-      [] v \in {"bad", "garbage"} -> Result(Kill(s, "fatalsent"), <<>>, <<>>, 0, TRUE)
-      [] OTHER ->
-           CASE r.it = "hs" -> RecvHs(s, r, c, ok)
-             [] r.it = "ccs" -> RecvCcs(s, r)
-             [] r.it = "app" -> RecvApp(s, r, v)
-             [] r.it = "alert" -> IF r.gen \/ ok THEN RecvAlert(s, r)
-                                  ELSE Result(Kill(s, "fatalsent"), <<>>, <<>>, 0, TRUE)   \* malformed alert
-             [] OTHER -> Result(Kill(s, "fatalsent"), <<>>, <<>>, 0, TRUE)
+    IF s.desync THEN
+        \* leftovers of an incomplete record are in front of it: dies or keeps waiting
+        IF ch = "part" THEN Pending(s, FALSE)
+        ELSE [Result(Kill(s, "fatalsent"), <<>>, <<>>, 0, TRUE, FALSE) EXCEPT !.loose = TRUE]
+    ELSE
+    CASE v = "ignore" -> Result(s, <<>>, <<>>, 0, FALSE, TRUE)
+      [] v = "plainalert" -> RecvAlert(s, r, ch)
+      [] v = "bad" ->
+           \* fails authentication: TLS dies with a fatal alert; DTLS may also silently discard.
+           \* (a record whose length field was raised is simply incomplete: the endpoint waits)
+           IF ch = "part" THEN Pending(s, FALSE)
+           ELSE Result(Kill(s, "fatalsent"), <<>>, <<>>, 0, TRUE, FALSE)
+      [] v = "garbage" ->
+           IF ch = "part" THEN Pending(s, FALSE)
+           ELSE Result(Kill(s, "fatalsent"), <<>>, <<>>, 0, TRUE, ch = "bad")
+      [] v = "plain" /\ r.free /\ ch = "rlfail" -> Result(Kill(s, "fatalsent"), <<>>, <<>>, 0, TRUE, FALSE)
+      [] v = "plain" /\ r.free /\ ch = "part" -> Pending(s, FALSE)
+      [] OTHER -> Dispatch(s, r, c, ch, v)
 
 (* Anything handed to a dead endpoint: nothing happens (C15). *)
 RecvDead(s) ==
-    Result([s EXCEPT !.postDead = Append(s.postDead, "recv")], <<>>, <<>>, 0, FALSE)
+    Result([s EXCEPT !.postDead = Append(s.postDead, "recv")], <<>>, <<>>, 0, FALSE, FALSE)
 
 -----------------------------------------------------------------------------
 (* Application-side actions *)
